@@ -34,6 +34,27 @@ fn check_pair(a: &[u8], b: &[u8], fam: &str) -> Result<(), Fail> {
         format!("memcmp-wrong:{fam}:want-{}", ord_name(want)),
         "memcmp({}, {}, {n}) = {:?} but lexicographic order is {:?}", hex::encode(a), hex::encode(b), cmp, want
     );
+    // the same pair at every address alignment of the first operand (and two of the second): the functions take raw
+    // pointers, and callers pass sub-slices that start anywhere
+    if n >= 3 && n <= 300 {
+        #[repr(align(16))]
+        struct Buf([u8; 320]);
+        let mut ba = Buf([0xa5; 320]);
+        let mut bb = Buf([0x5a; 320]);
+        for oa in 0..8usize {
+            for ob in [0usize, 3] {
+                ba.0[oa..oa + n].copy_from_slice(a);
+                bb.0[ob..ob + n].copy_from_slice(b);
+                // SAFETY: both ranges lie inside the buffers.
+                let eq = unsafe { memeq(ba.0.as_ptr().add(oa), bb.0.as_ptr().add(ob), n) };
+                let cmp = unsafe { memcmp(ba.0.as_ptr().add(oa), bb.0.as_ptr().add(ob), n) };
+                pv_ensure!(eq == (a == b), format!("memeq-wrong:{fam}:operand-at-offset"),
+                    "memeq({}, {}, {n}) with the operands at address offsets {oa} / {ob} (mod 16) = {eq} but slice equality is {}", hex::encode(a), hex::encode(b), a == b);
+                pv_ensure!(cmp == want, format!("memcmp-wrong:{fam}:operand-at-offset:want-{}", ord_name(want)),
+                    "memcmp({}, {}, {n}) with the operands at address offsets {oa} / {ob} (mod 16) = {:?} but lexicographic order is {:?}", hex::encode(a), hex::encode(b), cmp, want);
+            }
+        }
+    }
     Ok(())
 }
 
